@@ -316,3 +316,15 @@ Definition serve_req (d : bytes) (registered : list bytes) (q : hreq) : outcome 
   serve_sec d registered (hq_route q) (hq_specs q) (hq_head q) (hq_sec q) (hq_result q).
 Definition serve_history (d : bytes) (registered : list bytes) (qs : list hreq) : list outcome :=
   map (serve_req d registered) qs.
+
+(* ---- which error responder. The API's error responder is a field of the API value (untyped.API.ServeError;
+   errors.ServeError until something else is assigned) that may be assigned at any time: before the Context / the
+   handler chain is built from the API, after it, and between two requests. ServeErrorFor reads the field when the
+   error is served, so the responder invoked is the one in force at that moment: the last one assigned.
+   Responders are numbered; 0 = the library's own errors.ServeError (what NewAPI installs). ---- *)
+Record responder_cfg := mkrcfg {
+  rc_before : list nat;      (* assigned before the Context / handler was built, in order *)
+  rc_after : list nat        (* assigned after that and before the request is served, in order *)
+}.
+Definition DEFAULT_RESPONDER : nat := 0.
+Definition responder_in_force (c : responder_cfg) : nat := last (rc_before c ++ rc_after c) DEFAULT_RESPONDER.
